@@ -472,11 +472,14 @@ func c06Eval(c *Ctx, cs *c06Case, emit bool, stc *c06Stats) (*finding, []byte) {
 	}
 
 	// correspondence with the Coq model of the CURRENT builder
-	if (freshBig && !cs.L.Slim) || cs.AltSingle || len(cs.TC.Keys) == 0 || len(cs.TC.Keys) > 400 {
-		if freshBig && !cs.L.Slim {
-			stc.corrSkippedBig++
-		}
+	if cs.AltSingle || len(cs.TC.Keys) == 0 || len(cs.TC.Keys) > 400 {
 		return nil, buf
+	}
+	// the three-array conversion runs the creator with isBig = false: the model builds with
+	// Model.build_gen false (no 257-bit nodes)
+	cs.TC.NoBig = !cs.L.Slim
+	if freshBig && !cs.L.Slim {
+		stc.corrSkippedBig++ // counted for the distribution: these are compared against build_gen false
 	}
 	stc.corrEmitted++
 	cs.TC.WriteCase(c.Cases())
